@@ -49,7 +49,7 @@ _Dumper.add_representer(EnvRef, lambda d, x: d.represent_scalar("!Env", x.var))
 _Dumper.add_representer(TextRef, lambda d, x: d.represent_scalar("!TextFile", x.path))
 _Dumper.add_representer(BinRef, lambda d, x: d.represent_scalar("!BinaryFile", x.path))
 
-ENVVARS = {"VERIF_E1": "from-env", "VERIF_E2": "42"}   # VERIF_E3 is deliberately unset
+ENVVARS = {"VERIF_E1": "from-env", "VERIF_E2": "42", "VERIF_E4": ""}   # VERIF_E3 is deliberately unset, VERIF_E4 set to the empty string
 TEXT = "text file\ncontent\n"
 BIN = bytes([0, 1, 2, 255, 10])
 
@@ -227,7 +227,7 @@ def split_cases():
 
 
 def rand_cases(rnd: random.Random, n: int):
-    leaves = [1, 2, "x", None, [1], True, EnvRef("VERIF_E1"), EnvRef("VERIF_E3"), TextRef(""), BinRef("")]
+    leaves = [1, 2, "x", None, [1], True, EnvRef("VERIF_E1"), EnvRef("VERIF_E3"), EnvRef("VERIF_E4"), TextRef(""), BinRef("")]
 
     def rand_comp(depth=2):
         d = {}
